@@ -76,7 +76,7 @@ func init() {
 	vc.Register(&vc.Check{
 		ID:    "C05",
 		Level: "model_checking",
-		Rule: "histories: every sequence (length <=3 quick, <=4 thorough on a reduced alphabet) of deliveries of user events to one real Serf node, for every event-buffer size 1..4: gossip messages (Delegate.NotifyMsg), push/pull merges carrying buffered events and an event clock (Delegate.MergeRemoteState), a real Serf.Join with ignore-old whose push/pull reply carries events (cut-off), and local UserEvent calls; Lamport times from {0,1,2,N-1,N,N+1,2N,2N+1,2^32,2^63}; after every step the events handed to the application are compared with a reference model (set of received triples, clock, window, cut-off); a state is the canonical private state after a history; non-trivial = history in which at least one event was received twice or rejected",
+		Rule: "histories: every sequence (length <=3 quick, <=4 thorough on a reduced alphabet) of deliveries of user events to one real Serf node, for every event-buffer size 1..4: gossip messages (Delegate.NotifyMsg), push/pull merges carrying buffered events and an event clock (Delegate.MergeRemoteState), a real Serf.Join with ignore-old whose push/pull reply carries events (cut-off), an ignore-old Join that reaches nobody, the join-flagged state sync of another node's join, and local UserEvent calls; Lamport times from {0,1,2,N-1,N,N+1,2N,2N+1,2^32,2^63}; after every step the events handed to the application are compared with a reference model (set of received triples, clock, window, cut-off); a state is the canonical private state after a history; non-trivial = history in which at least one event was received twice or rejected",
 		Assumptions: []string{
 			"one node over an inert real memberlist; deliveries are serial",
 			"Lamport times >= 2^64-2 are excluded here (clock wrap is C19's known finding)",
@@ -126,6 +126,8 @@ func c05alphabet(n int, thorough bool, depth int) []c05act {
 	// join with ignore-old: cut-off at the responder's event clock
 	acts = append(acts, c05act{kind: "join", elt: N + 1, ev: []c05ev{{1, "a", "p"}, {N, "b", "p"}, {N + 1, "a", "p"}}})
 	acts = append(acts, c05act{kind: "join", elt: 2, ev: []c05ev{{1, "a", "p"}, {2, "b", "p"}}})
+	acts = append(acts, c05act{kind: "joinfail"})
+	acts = append(acts, c05act{kind: "ppjoin", elt: N + 2, ev: []c05ev{{1, "c", "p"}, {N + 1, "c", "p"}}})
 	acts = append(acts, c05act{kind: "local", ev: []c05ev{{0, "a", "p"}}})
 	acts = append(acts, c05act{kind: "local", ev: []c05ev{{0, "l", "p"}}})
 	return acts
@@ -216,7 +218,14 @@ func c05one(ctx *vc.Ctx, scn *vc.Scenario, n int, acts []c05act, seq []int, stat
 					nontrivial = true
 				}
 				node.Delegate().NotifyMsg(serf.VEncode(serf.VMsgUserEvent, &serf.VMessageUserEvent{LTime: serf.LamportTime(e.lt), Name: e.name, Payload: []byte(e.payload)}))
-			case "pp", "join":
+			case "joinfail":
+				// an ignore-old Join that reaches nobody (the dial is refused): no cut-off is established
+				node.Tr.Dial = nil
+				if _, err := node.S.Join([]string{"z/10.0.0.99:7946"}, true); err == nil {
+					viol, sig = "Join to an unreachable peer succeeded", "harness: join did not fail"
+					return
+				}
+			case "pp", "ppjoin", "join":
 				if a.elt > 0 {
 					m.witness(a.elt - 1)
 				}
@@ -231,8 +240,9 @@ func c05one(ctx *vc.Ctx, scn *vc.Scenario, n int, acts []c05act, seq []int, stat
 					}
 				}
 				buf := c05pushpull(a)
-				if a.kind == "pp" {
-					node.Delegate().MergeRemoteState(buf, false)
+				if a.kind == "pp" || a.kind == "ppjoin" {
+					// "ppjoin": the state sync of ANOTHER node's join (join flag set, no ignore-old of ours)
+					node.Delegate().MergeRemoteState(buf, a.kind == "ppjoin")
 				} else {
 					node.Tr.Dial = func(ad memberlist.Address) (net.Conn, error) {
 						return world.NewPushPullConn(func(req []byte) []byte {
